@@ -322,6 +322,7 @@ Theo::Node *MVARGS(ParseState &ps) {
   ps.match(Theo::Token::ARGSEP);
   Node *v = VALUE(ps);
   Node *m = MVARGS(ps);
+  if (v == NULL) return m;  // VALUE already reported the syntax error
   return ps.a.mk(Node::Type::SPLIT, v->line, v->file, "", v, m);
 }
 
